@@ -5,6 +5,7 @@
 -/
 import AeicProofs.Lemmas.StoreMain
 import AeicProofs.Lemmas.MergeRead
+import AeicModel.FlightLookup
 
 namespace C08
 open Aeic.Store
@@ -85,5 +86,47 @@ theorem merged_lookup_is_dictionary (files : List (List Item)) (id : Int)
 
 example : mergedGetFlight [[⟨0, 1, some 30, 0, true⟩, ⟨1, 1, some 10, 0, true⟩], [], [⟨2, 1, some 20, 0, true⟩]] 20
     = some ⟨2, 1, some 20, 0, true⟩ := by decide
+
+/-! ### the lookup of the SOURCE (`Gen.fl*`, regenerated from `trajectories/store.py` on every run) -/
+
+/-- what the translator read from `get_flight`, `_reindex` and `_create_merged_store_index`: `bisect_left` on the identifiers, both
+    guards (past the end, other identifier), the trajectory index read at the same position; tables sorted (stably) by
+    identifier, merged tables shifted by the running trajectory count — decided by the kernel on the regenerated parameters -/
+theorem src_flight_lookup_parameters :
+    Aeic.Gen.flBisectLeft = true ∧ Aeic.Gen.flGuardEq = true ∧ Aeic.Gen.flShift = 0 ∧ Aeic.Gen.flGuardLen = true ∧
+    Aeic.Gen.flTableSortedById = true ∧ Aeic.Gen.flMergedShiftedSorted = true := by
+  decide
+
+/-- with `bisect_left`, the equality guard and no offset, the parametrised lookup is the model's `lookupIndex` (with or without
+    the length guard: past the end there is no entry either way) -/
+theorem lookupWith_eq (guardLen : Bool) (tbl : List (Int × Nat)) (id : Int) :
+    lookupWith true guardLen true 0 tbl id = lookupIndex tbl id := by
+  unfold lookupWith lookupIndex
+  simp only [if_true, Bool.true_and, Int.add_zero]
+  by_cases hk : tbl.length ≤ bisectLeftIds id tbl
+  · have hn : tbl[bisectLeftIds id tbl]? = none := List.getElem?_eq_none hk
+    cases guardLen <;> simp [hk, hn]
+  · have hlt : bisectLeftIds id tbl < tbl.length := by omega
+    have hs : tbl[bisectLeftIds id tbl]? = some tbl[bisectLeftIds id tbl] := List.getElem?_eq_getElem hlt
+    cases guardLen <;> simp [hk, hs] <;> (split_ifs <;> first | rfl | omega | simp_all)
+
+/-- the flight-identifier lookup as the working tree has it IS the model's lookup … -/
+theorem src_lookup_is_model (tbl : List (Int × Nat)) (id : Int) : lookupSrc tbl id = lookupIndex tbl id := by
+  unfold lookupSrc
+  rw [src_flight_lookup_parameters.1, src_flight_lookup_parameters.2.1, src_flight_lookup_parameters.2.2.1]
+  exact lookupWith_eq _ tbl id
+
+/-- … **so `get_flight` through the arithmetic of the source finds the first trajectory added with that identifier**, for every
+    store content in which all trajectories are identified (`bisect_sorted_finds` for the source), and the same across the parts
+    of a merged store (`merged_lookup_is_dictionary`) -/
+theorem src_bisect_sorted_finds (items : List Item) (id : Int) (hall : ∀ it ∈ items, it.fid.isSome = true) :
+    match lookupSrc (buildIndex items) id with
+    | none => items.find? (fun it => it.fid = some id) = none
+    | some k => ∃ it, items[k]? = some it ∧ items.find? (fun it => it.fid = some id) = some it := by
+  rw [src_lookup_is_model]; exact bisect_sorted_finds items id hall
+
+/-- the parameters matter: with `bisect_right` an identifier that is present is not found — kernel-checked witness -/
+example : lookupWith false true true 0 [(3, 0), (5, 1), (9, 2)] 5 = none ∧ lookupIndex [(3, 0), (5, 1), (9, 2)] 5 = some 1 := by
+  decide
 
 end C08
